@@ -31,69 +31,69 @@ def FaultOK (ck : Bool) (fns : List FDecl) (w : Nat) : Res → Prop
   | _ => True
 
 /-- what a caller must know about the end of a statement list that contains `try` -/
-def Safe (p : Prog) (B ra : Nat) (Γ : Gam) (env' : Env) (F D o pcEnd : Nat) (m : Mem) (res : Res) (s : S) : Prop :=
+def Safe (p : Prog) (B ra : Nat) (lp : Nat × Nat) (Γ : Gam) (env' : Env) (F D o pcEnd : Nat) (m : Mem) (res : Res) (s : S) : Prop :=
   noTry s = true ∨
-    (youLevel s = true ∧ ∀ st', Post p B ra Γ env' F D o pcEnd m res st' → ¬ Halts (sphinx p) st')
+    (youLevel s = true ∧ ∀ st', Post p B ra lp Γ env' F D o pcEnd m res st' → ¬ Halts (sphinx p) st')
 
-theorem Safe.sub {Γ Γ' : Gam} {env' : Env} {F D ra o o' e e' : Nat} {m m1 : Mem} {res : Res} {s k : S}
-    (h : Safe p B ra Γ env' F D o e m res s)
+theorem Safe.sub {lp : Nat × Nat} {Γ Γ' : Gam} {env' : Env} {F D ra o o' e e' : Nat} {m m1 : Mem} {res : Res} {s k : S}
+    (h : Safe p B ra lp Γ env' F D o e m res s)
     (hnt : noTry s = true → noTry k = true) (hyl : youLevel s = true → youLevel k = true)
     (km : Keep p.w m m1 F)
-    (conv : ∀ st', Post p B ra Γ' env' F D o' e' m res st' → Post p B ra Γ env' F D o e m res st') :
-    Safe p B ra Γ' env' F D o' e' m1 res k := by
+    (conv : ∀ st', Post p B ra lp Γ' env' F D o' e' m res st' → Post p B ra lp Γ env' F D o e m res st') :
+    Safe p B ra lp Γ' env' F D o' e' m1 res k := by
   rcases h with h | ⟨h1, h2⟩
   · exact Or.inl (hnt h)
   · exact Or.inr ⟨hyl h1, fun st' hp => h2 st' (conv st' (hp.rebase km))⟩
 
 /-- what `cS_ok` concludes -/
-def Concl (p : Prog) (B ra : Nat) (Γ : Gam) (env' : Env) (F D o pc pcEnd : Nat) (m : Mem) (tr : List Ev) (res : Res) : Prop :=
+def Concl (p : Prog) (B ra : Nat) (lp : Nat × Nat) (Γ : Gam) (env' : Env) (F D o pc pcEnd : Nat) (m : Mem) (tr : List Ev) (res : Res) : Prop :=
   (res = .defeat → Halts (sphinx p) ⟨pc, m⟩) ∧
-  (res ≠ .defeat → ∃ st', Reach (sphinx p) ⟨pc, m⟩ tr st' ∧ Post p B ra Γ env' F D o pcEnd m res st')
+  (res ≠ .defeat → ∃ st', Reach (sphinx p) ⟨pc, m⟩ tr st' ∧ Post p B ra lp Γ env' F D o pcEnd m res st')
 
 /-- prefix a `Reach` to a conclusion about the rest -/
-theorem Concl.pre {Γ Γ' : Gam} {env' : Env} {F D ra o o' pc pc1 e e' : Nat} {m m1 : Mem} {tr0 tr : List Ev} {res : Res}
+theorem Concl.pre {lp : Nat × Nat} {Γ Γ' : Gam} {env' : Env} {F D ra o o' pc pc1 e e' : Nat} {m m1 : Mem} {tr0 tr : List Ev} {res : Res}
     (r : Reach (sphinx p) ⟨pc, m⟩ tr0 ⟨pc1, m1⟩) (km : Keep p.w m m1 F)
-    (h : Concl p B ra Γ' env' F D o' pc1 e' m1 tr res)
-    (conv : ∀ st', Post p B ra Γ' env' F D o' e' m res st' → Post p B ra Γ env' F D o e m res st') :
-    Concl p B ra Γ env' F D o pc e m (tr0 ++ tr) res :=
+    (h : Concl p B ra lp Γ' env' F D o' pc1 e' m1 tr res)
+    (conv : ∀ st', Post p B ra lp Γ' env' F D o' e' m res st' → Post p B ra lp Γ env' F D o e m res st') :
+    Concl p B ra lp Γ env' F D o pc e m (tr0 ++ tr) res :=
   ⟨fun hd => r.1 (h.1 hd), fun hn => by
     obtain ⟨st', r2, hp⟩ := h.2 hn
     exact ⟨st', r.trans r2, conv st' (hp.rebase km)⟩⟩
 
-theorem post_conv {Γ : Gam} {env' : Env} {F D ra o e e' : Nat} {m : Mem} {res : Res} (he : e' = e) :
-    ∀ st', Post p B ra Γ env' F D o e' m res st' → Post p B ra Γ env' F D o e m res st' := by
+theorem post_conv {lp : Nat × Nat} {Γ : Gam} {env' : Env} {F D ra o e e' : Nat} {m : Mem} {res : Res} (he : e' = e) :
+    ∀ st', Post p B ra lp Γ env' F D o e' m res st' → Post p B ra lp Γ env' F D o e m res st' := by
   subst he; exact fun _ h => h
 
 theorem cS_ok (lib : Placed p B) (fok : FnsOK p ck B fa fns) :
-    ∀ (fuel : Nat) (F D ra : Nat) (hra : ra < 256 ^ p.w)
+    ∀ (fuel : Nat) (F D ra : Nat) (hra : ra < 256 ^ p.w) (lp : Nat × Nat) (hlp : lp.1 < 256 ^ p.w ∧ lp.2 < 256 ^ p.w)
       (s : S) (Γ : Gam) (env : Env) (pc o : Nat) (m : Mem) (env' : Env) (tr : List Ev) (res : Res),
-      PlacedAt p pc (cS (cxOf p ck B) fa Γ pc o s) →
-      pc + (cS (cxOf p ck B) fa Γ pc o s).length ≤ B →
+      PlacedAt p pc (cS (cxOf p ck B) fa lp Γ pc o s) →
+      pc + (cS (cxOf p ck B) fa lp Γ pc o s).length ≤ B →
       SInv p Γ env m F D o ra → Disj p.w Γ → wfS (Γ.map Prod.fst) s = true →
       pkS p.w o s ≤ D → p.w ≤ o →
       exec (256 ^ p.w) (8 * p.w) fns p.w fuel D o env s = some (env', tr, res) → FaultOK ck fns p.w res →
-      Safe p B ra Γ env' F D o (pc + (cS (cxOf p ck B) fa Γ pc o s).length) m res s →
-      Concl p B ra Γ env' F D o pc (pc + (cS (cxOf p ck B) fa Γ pc o s).length) m tr res := by
+      Safe p B ra lp Γ env' F D o (pc + (cS (cxOf p ck B) fa lp Γ pc o s).length) m res s →
+      Concl p B ra lp Γ env' F D o pc (pc + (cS (cxOf p ck B) fa lp Γ pc o s).length) m tr res := by
   have hw := lib.hw
   have h64 := mul_w_lt_pow p.w hw
   have hM := pow_ge2 p.w hw
   have hBM := lib.hB
   intro fuel
   induction fuel with
-  | zero => intro F D ra hra s Γ env pc o m env' tr res _ _ _ _ _ _ _ hex; simp [exec] at hex
+  | zero => intro F D ra hra lp hlp s Γ env pc o m env' tr res _ _ _ _ _ _ _ hex; simp [exec] at hex
   | succ f ih =>
-    intro F D ra hra s Γ env pc o m env' tr res hpl hB hinv hd hwf hpk ho hex hck hs
+    intro F D ra hra lp hlp s Γ env pc o m env' tr res hpl hB hinv hd hwf hpk ho hex hck hs
     have hroom := hinv.fr.room; have htop := hinv.fr.top; have hFM := hinv.fr.lt
     have hoD : o ≤ D := by have := pkS_ge p.w s o; omega
     -- a fault exit: the machine is in the `division_by_zero` stub
     have fault : ∀ (pc0 : Nat) (e0 : Nat) (env0 : Env) (m0 m' : Mem) (t : List Ev),
         Reach (sphinx p) ⟨pc0, m0⟩ t ⟨B + off_division_by_zero, m'⟩ →
-        Concl p B ra Γ env0 F D o pc0 e0 m0 t .div0 :=
+        Concl p B ra lp Γ env0 F D o pc0 e0 m0 t .div0 :=
       fun _ _ _ _ m' _ r => ⟨fun h => absurd h (by decide), fun _ => ⟨⟨_, m'⟩, r, by simp [Post]⟩⟩
     -- the same for a stack overflow in a callee
     have faultO : ∀ (pc0 : Nat) (e0 : Nat) (env0 : Env) (m0 m' : Mem) (t : List Ev),
         Reach (sphinx p) ⟨pc0, m0⟩ t ⟨B + off_stack_overflow, m'⟩ →
-        Concl p B ra Γ env0 F D o pc0 e0 m0 t .ovf :=
+        Concl p B ra lp Γ env0 F D o pc0 e0 m0 t .ovf :=
       fun _ _ _ _ m' _ r => ⟨fun h => absurd h (by decide), fun _ => ⟨⟨_, m'⟩, r, by simp [Post]⟩⟩
     -- a call `g(args)` at the start of the list: the callee's body by the induction hypothesis
     have hcall : ∀ (g : String) (args : List E) (trc : List Ev) (flag : Option Res) (rv : Option Nat),
@@ -233,7 +233,7 @@ theorem cS_ok (lib : Placed p B) (fok : FnsOK p ck B fa fns) :
                   [Instr.j (.imm (faddr fa fd.name + 5)), .alu .sub (cxOf p ck B).r1 (.st (cxOf p ck B).fp) (.st 0),
                    .hcond .hgeu (.st (cxOf p ck B).r1) (.imm (pkS p.w (entryOff p.w fd.params) fd.body % (cxOf p ck B).M)),
                    .j (.imm (B + off_stack_overflow)), .halt]
-                 else []) ++ cS (cxOf p ck B) fa (paramGam p.w (2 * p.w) fd.params) (faddr fa fd.name + prologueLen ck)
+                 else []) ++ cS (cxOf p ck B) fa (0, 0) (paramGam p.w (2 * p.w) fd.params) (faddr fa fd.name + prologueLen ck)
                     (entryOff p.w fd.params) fd.body := rfl
             have hpllen : (if ck then
                   [Instr.j (.imm (faddr fa fd.name + 5)), .alu .sub (cxOf p ck B).r1 (.st (cxOf p ck B).fp) (.st 0),
@@ -249,7 +249,7 @@ theorem cS_ok (lib : Placed p B) (fok : FnsOK p ck B fa fns) :
             | some rb =>
               obtain ⟨envb, trb, resb⟩ := rb
               simp only [hexb] at hcw
-              have hbody := ih (F - o) (D - o) (pc + 1 + push.length + 3) hend fd.body (paramGam p.w (2 * p.w) fd.params)
+              have hbody := ih (F - o) (D - o) (pc + 1 + push.length + 3) hend (0, 0) ⟨by omega, by omega⟩ fd.body (paramGam p.w (2 * p.w) fd.params)
                 (bindEnv fd.params vs) (faddr fa fd.name + prologueLen ck) (entryOff p.w fd.params) m3 envb trb resb
                 hplb (by omega) hinv3 (disj_paramGam p.w fd.params (2 * p.w) (fok.nodup fd hmem))
                 (by rw [map_fst_paramGam]; exact fok.wf fd hmem) hfit heW hexb
@@ -292,6 +292,8 @@ theorem cS_ok (lib : Placed p B) (fok : FnsOK p ck B fa fns) :
               cases resb with
               | norm => simp at hcw
               | defeat => simp at hcw
+              | brk => simp at hcw
+              | cnt => simp at hcw
               | div0 =>
                 simp only [Option.some.injEq, Prod.mk.injEq] at hcw
                 obtain ⟨rfl, rfl, rfl⟩ := hcw
@@ -374,8 +376,8 @@ theorem cS_ok (lib : Placed p B) (fok : FnsOK p ck B fa fns) :
         simp only [exec, hev] at hex
         obtain ⟨m1, r1, k1, hval⟩ := hp.1 v hev
         obtain ⟨hinv1, hd1⟩ := decl_inv hinv hd x v k1 hval hxn ho
-        have conv : ∀ (e1 e2 : Nat), e1 = e2 → ∀ st', Post p B ra ((x, o + p.w) :: Γ) env' F D (o + p.w) e1 m res st' →
-            Post p B ra Γ env' F D o e2 m res st' := by
+        have conv : ∀ (e1 e2 : Nat), e1 = e2 → ∀ st', Post p B ra lp ((x, o + p.w) :: Γ) env' F D (o + p.w) e1 m res st' →
+            Post p B ra lp Γ env' F D o e2 m res st' := by
           intro e1 e2 he st' hpost
           subst he
           cases res with
@@ -387,7 +389,13 @@ theorem cS_ok (lib : Placed p B) (fok : FnsOK p ck B fa fns) :
           | ovf => simpa [Post] using hpost
           | defeat => simpa [Post] using hpost
           | retv v => simpa [Post] using hpost
-        have hk := ih F D ra hra k ((x, o + p.w) :: Γ) (upd env x v) _ (o + p.w) m1 env' tr res hpl2 (by omega)
+          | brk =>
+            simp only [Post] at hpost ⊢
+            exact ⟨hpost.1, decl_back hinv x hpost.2.1 hxn, hpost.2.2⟩
+          | cnt =>
+            simp only [Post] at hpost ⊢
+            exact ⟨hpost.1, decl_back hinv x hpost.2.1 hxn, hpost.2.2⟩
+        have hk := ih F D ra hra lp hlp k ((x, o + p.w) :: Γ) (upd env x v) _ (o + p.w) m1 env' tr res hpl2 (by omega)
           hinv1 hd1 (by simpa using hwk) (by omega) (by omega) hex hck
           (hs.sub (by simp [noTry]) (by simp [youLevel]) (k1.mono (by omega)) (conv _ _ (by omega)))
         simpa using Concl.pre r1 (k1.mono (by omega)) hk (conv _ _ (by omega))
@@ -400,9 +408,9 @@ theorem cS_ok (lib : Placed p B) (fok : FnsOK p ck B fa fns) :
       rw [show (cxOf p ck B).r1 = 3 * p.w from rfl] at hgv
       rw [hgv] at hg
       simp only at hg
-      have hcode : cS (cxOf p ck B) fa Γ pc o (.assign x e k)
+      have hcode : cS (cxOf p ck B) fa lp Γ pc o (.assign x e k)
           = (c ++ [stSlot (cxOf p ck B) (look Γ x) (v'.arg (cxOf p ck B))]) ++
-              cS (cxOf p ck B) fa Γ (pc + (c ++ [stSlot (cxOf p ck B) (look Γ x) (v'.arg (cxOf p ck B))]).length) o k := by
+              cS (cxOf p ck B) fa lp Γ (pc + (c ++ [stSlot (cxOf p ck B) (look Γ x) (v'.arg (cxOf p ck B))]).length) o k := by
         simp only [cS]; rw [show (cxOf p ck B).r1 = 3 * p.w from rfl, hgv]
       rw [hcode] at hpl hB hs ⊢
       obtain ⟨hpl12, hpl3⟩ := hpl.append
@@ -431,7 +439,7 @@ theorem cS_ok (lib : Placed p B) (fok : FnsOK p ck B fa fns) :
         have hinv2 := assign_inv hw hinv1 hd x v hvM hxin hoD
         have km2 : Keep p.w m (m1.writeLE (F - look Γ x) p.w v) F :=
           (k1.mono (by omega)).trans' (Keep.write _ _ _ _ _ _ (by omega) (by omega))
-        have hk := ih F D ra hra k Γ (upd env x v) _ o _ env' tr res hpl3 (by omega)
+        have hk := ih F D ra hra lp hlp k Γ (upd env x v) _ o _ env' tr res hpl3 (by omega)
           hinv2 hd hwk (by omega) ho hex hck (hs.sub (by simp [noTry]) (by simp [youLevel]) km2 (post_conv (by omega)))
         have r01 : Reach (sphinx p) ⟨pc, m⟩ [] ⟨pc + (c.length + 1), m1.writeLE (F - look Γ x) p.w v⟩ := by
           simpa [Nat.add_assoc] using r1.trans st
@@ -459,7 +467,7 @@ theorem cS_ok (lib : Placed p B) (fok : FnsOK p ck B fa fns) :
           simp only [hk, Option.bind_eq_bind, Option.bind_some, Option.pure_def, Option.some.injEq, Prod.mk.injEq] at hex
           obtain ⟨rfl, rfl, rfl⟩ := hex
           obtain ⟨m1, r1, k1⟩ := hwr.1 v hev
-          have hkk := ih F D ra hra k Γ env _ o m1 envk trk resk hpl2 (by omega)
+          have hkk := ih F D ra hra lp hlp k Γ env _ o m1 envk trk resk hpl2 (by omega)
             (hinv.keep k1 ho) hd hwk (by omega) ho hk hck (hs.sub (by simp [noTry]) (by simp [youLevel]) (k1.mono (by omega)) (post_conv (by omega)))
           exact Concl.pre r1 (k1.mono (by omega)) hkk (post_conv (by omega))
     | writeln e k =>
@@ -470,7 +478,7 @@ theorem cS_ok (lib : Placed p B) (fok : FnsOK p ck B fa fns) :
         simp only [cS] at hpl hB hs ⊢
         have c0 := hpl 0 (by simp)
         simp only [List.getElem_cons_zero, Nat.add_zero] at c0
-        have hpl2 : PlacedAt p (pc + 1) (cS (cxOf p ck B) fa Γ (pc + 1) o k) := by
+        have hpl2 : PlacedAt p (pc + 1) (cS (cxOf p ck B) fa lp Γ (pc + 1) o k) := by
           have := (hpl.append (l₁ := [Instr.yld (.imm 10)])).2; simpa using this
         simp only [List.length_cons] at hB hs ⊢
         simp only [exec] at hex
@@ -482,7 +490,7 @@ theorem cS_ok (lib : Placed p B) (fok : FnsOK p ck B fa fns) :
           obtain ⟨rfl, rfl, rfl⟩ := hex
           have y := yld_reach (p := p) pc 10 m c0
           rw [show 10 % p.M % 256 = 10 from by unfold Prog.M; rw [Nat.mod_eq_of_lt (show 10 < 256 ^ p.w by omega)]] at y
-          have hkk := ih F D ra hra k Γ env _ o m envk trk resk hpl2 (by omega) hinv hd hwf hpk ho hk hck
+          have hkk := ih F D ra hra lp hlp k Γ env _ o m envk trk resk hpl2 (by omega) hinv hd hwf hpk ho hk hck
             (hs.sub (by simp [noTry]) (by simp [youLevel]) (Keep.refl _ _ _) (post_conv (by omega)))
           simpa using Concl.pre y (Keep.refl _ _ _) hkk (post_conv (by omega))
       | some e =>
@@ -511,7 +519,7 @@ theorem cS_ok (lib : Placed p B) (fok : FnsOK p ck B fa fns) :
             obtain ⟨m1, r1, k1⟩ := hwr.1 v hev
             have y := yld_reach (p := p) (pc + (cWrite (cxOf p ck B) Γ pc o e).length) 10 m1 (placed_one hpl2)
             rw [show 10 % p.M % 256 = 10 from by unfold Prog.M; rw [Nat.mod_eq_of_lt (show 10 < 256 ^ p.w by omega)]] at y
-            have hkk := ih F D ra hra k Γ env _ o m1 envk trk resk hpl3 (by omega)
+            have hkk := ih F D ra hra lp hlp k Γ env _ o m1 envk trk resk hpl3 (by omega)
               (hinv.keep k1 ho) hd hwk (by omega) ho hk hck (hs.sub (by simp [noTry]) (by simp [youLevel]) (k1.mono (by omega)) (post_conv (by omega)))
             have r01 : Reach (sphinx p) ⟨pc, m⟩ (outs (decimalW (256 ^ p.w) v) ++ [Ev.out 10])
                 ⟨pc + ((cWrite (cxOf p ck B) Γ pc o e).length + 1), m1⟩ := by
@@ -523,7 +531,7 @@ theorem cS_ok (lib : Placed p B) (fok : FnsOK p ck B fa fns) :
       simp only [cS] at hpl hB hs ⊢
       have c0 := hpl 0 (by simp)
       simp only [List.getElem_cons_zero, Nat.add_zero] at c0
-      have hpl2 : PlacedAt p (pc + 1) (cS (cxOf p ck B) fa Γ (pc + 1) o k) := by
+      have hpl2 : PlacedAt p (pc + 1) (cS (cxOf p ck B) fa lp Γ (pc + 1) o k) := by
         have := (hpl.append (l₁ := [Instr.yld (.imm (c % (cxOf p ck B).M))])).2; simpa using this
       simp only [List.length_cons] at hB hs ⊢
       simp only [exec] at hex
@@ -536,7 +544,7 @@ theorem cS_ok (lib : Placed p B) (fok : FnsOK p ck B fa fns) :
         have y := yld_reach (p := p) pc _ m c0
         rw [show c % (cxOf p ck B).M % p.M % 256 = c % 256 ^ p.w % 256 from by
           unfold Prog.M; show c % 256 ^ p.w % 256 ^ p.w % 256 = _; rw [Nat.mod_mod]] at y
-        have hkk := ih F D ra hra k Γ env _ o m envk trk resk hpl2 (by omega) hinv hd hwf hpk ho hk hck
+        have hkk := ih F D ra hra lp hlp k Γ env _ o m envk trk resk hpl2 (by omega) hinv hd hwf hpk ho hk hck
           (hs.sub (by simp [noTry]) (by simp [youLevel]) (Keep.refl _ _ _) (post_conv (by omega)))
         simpa using Concl.pre y (Keep.refl _ _ _) hkk (post_conv (by omega))
     | block b k =>
@@ -562,14 +570,14 @@ theorem cS_ok (lib : Placed p B) (fok : FnsOK p ck B fa fns) :
             obtain ⟨rfl, rfl, rfl⟩ := hex
             -- the rest, from any state matching env1 at the end of `b` that is reachable from `m`
             have contK : ∀ m1, SInv p Γ env1 m1 F D o ra → Keep p.w m m1 F →
-                Concl p B ra Γ envk F D o (pc + (cS (cxOf p ck B) fa Γ pc o b).length)
-                  (pc + (cS (cxOf p ck B) fa Γ pc o b).length +
-                    (cS (cxOf p ck B) fa Γ (pc + (cS (cxOf p ck B) fa Γ pc o b).length) o k).length) m1 trk resk :=
-              fun m1 hi1 km1 => ih F D ra hra k Γ env1 (pc + (cS (cxOf p ck B) fa Γ pc o b).length) o m1 envk trk resk hpl2 (by omega)
+                Concl p B ra lp Γ envk F D o (pc + (cS (cxOf p ck B) fa lp Γ pc o b).length)
+                  (pc + (cS (cxOf p ck B) fa lp Γ pc o b).length +
+                    (cS (cxOf p ck B) fa lp Γ (pc + (cS (cxOf p ck B) fa lp Γ pc o b).length) o k).length) m1 trk resk :=
+              fun m1 hi1 km1 => ih F D ra hra lp hlp k Γ env1 (pc + (cS (cxOf p ck B) fa lp Γ pc o b).length) o m1 envk trk resk hpl2 (by omega)
                 hi1 hd hwf.2 (by omega) ho hk hck
                 (hs.sub (k := k) (by simp only [noTry, Bool.and_eq_true]; exact fun h => h.2)
                   (by simp only [youLevel, Bool.and_eq_true]; exact fun h => h.2) km1 (post_conv (by omega)))
-            have hsb : Safe p B ra Γ env1 F D o (pc + (cS (cxOf p ck B) fa Γ pc o b).length) m .norm b := by
+            have hsb : Safe p B ra lp Γ env1 F D o (pc + (cS (cxOf p ck B) fa lp Γ pc o b).length) m .norm b := by
               rcases hs with h | ⟨h1, h2⟩
               · left; simp only [noTry, Bool.and_eq_true] at h; exact h.1
               · right
@@ -581,7 +589,7 @@ theorem cS_ok (lib : Placed p B) (fok : FnsOK p ck B fa fns) :
                 subst hpc1
                 obtain ⟨st', r2, hp2⟩ := (contK m1 hi1 km1).2 (exec_no_defeat _ _ _ _ _ _ _ _ _ _ _ _ h1.2 hk)
                 exact (r2.exec (h2 st' (by refine post_conv ?_ st' (hp2.rebase km1); omega))).2
-            have hbb := ih F D ra hra b Γ env pc o m env1 tr1 .norm hpl1 (by omega) hinv hd hwf.1 (by omega) ho hb1 trivial hsb
+            have hbb := ih F D ra hra lp hlp b Γ env pc o m env1 tr1 .norm hpl1 (by omega) hinv hd hwf.1 (by omega) ho hb1 trivial hsb
             obtain ⟨st1, r1, hp1⟩ := hbb.2 (by decide)
             obtain ⟨pc1, m1⟩ := st1
             simp only [Post] at hp1
@@ -590,7 +598,7 @@ theorem cS_ok (lib : Placed p B) (fok : FnsOK p ck B fa fns) :
             exact Concl.pre r1 km1 (contK m1 hi1 km1) (post_conv (by omega))
         · simp only [hn, if_false, Option.pure_def, Option.some.injEq, Prod.mk.injEq] at hex
           obtain ⟨rfl, rfl, rfl⟩ := hex
-          have convb : ∀ (e1 e2 : Nat) st', Post p B ra Γ env1 F D o e1 m res1 st' → Post p B ra Γ env1 F D o e2 m res1 st' := by
+          have convb : ∀ (e1 e2 : Nat) st', Post p B ra lp Γ env1 F D o e1 m res1 st' → Post p B ra lp Γ env1 F D o e2 m res1 st' := by
             intro e1 e2 st' h
             cases res1 with
             | norm => exact absurd rfl hn
@@ -599,7 +607,9 @@ theorem cS_ok (lib : Placed p B) (fok : FnsOK p ck B fa fns) :
             | ovf => simpa [Post] using h
             | defeat => simpa [Post] using h
             | retv v => simpa [Post] using h
-          have hbb := ih F D ra hra b Γ env pc o m env1 tr1 res1 hpl1 (by omega) hinv hd hwf.1 (by omega) ho hb1 hck
+            | brk => simpa [Post] using h
+            | cnt => simpa [Post] using h
+          have hbb := ih F D ra hra lp hlp b Γ env pc o m env1 tr1 res1 hpl1 (by omega) hinv hd hwf.1 (by omega) ho hb1 hck
             (hs.sub (by simp only [noTry, Bool.and_eq_true]; exact fun h => h.1)
               (by simp only [youLevel, Bool.and_eq_true]; exact fun h => h.1) (Keep.refl _ _ _) (convb _ _))
           exact ⟨hbb.1, fun hnd => by obtain ⟨st1, r1, hp1⟩ := hbb.2 hnd; exact ⟨st1, r1, convb _ _ st1 hp1⟩⟩
@@ -633,7 +643,7 @@ theorem cS_ok (lib : Placed p B) (fok : FnsOK p ck B fa fns) :
         | false =>
           simp only [exec, hev] at hex
           obtain ⟨m1, r1, k1⟩ := hcd.1 hev
-          have hkk := ih F D ra hra k Γ env _ o m1 env' tr res hpl2 (by omega) (hinv.keep k1 ho) hd hwk (by omega) ho hex hck
+          have hkk := ih F D ra hra lp hlp k Γ env _ o m1 env' tr res hpl2 (by omega) (hinv.keep k1 ho) hd hwk (by omega) ho hex hck
             (hs.sub (by simp [noTry]) (by simp [youLevel]) (k1.mono (by omega)) (post_conv (by omega)))
           simpa using Concl.pre r1 (k1.mono (by omega)) hkk (post_conv (by omega))
     | ifb c t e k =>
@@ -644,8 +654,8 @@ theorem cS_ok (lib : Placed p B) (fok : FnsOK p ck B fa fns) :
       have hlenA : (cB (cxOf p ck B) Γ pc o c [] (goto (pc + lenB ck c 0 2 false true + lenS ck t + 2))).length
           = lenB ck c 0 2 false true := by rw [cB_len]; simp
       generalize hnC : lenB ck c 0 2 false true = nC at *
-      have hlenT : (cS (cxOf p ck B) fa Γ (pc + nC) o t).length = lenS ck t := cS_len _ _ _ _ _ _
-      have hlenE : (cS (cxOf p ck B) fa Γ (pc + nC + lenS ck t + 2) o e).length = lenS ck e := cS_len _ _ _ _ _ _
+      have hlenT : (cS (cxOf p ck B) fa lp Γ (pc + nC) o t).length = lenS ck t := cS_len _ _ _ _ _ _ _
+      have hlenE : (cS (cxOf p ck B) fa lp Γ (pc + nC + lenS ck t + 2) o e).length = lenS ck e := cS_len _ _ _ _ _ _ _
       generalize hnT : lenS ck t = nT at *
       generalize hnE : lenS ck e = nE at *
       obtain ⟨hpl1234, hplK⟩ := hpl.append
@@ -669,7 +679,7 @@ theorem cS_ok (lib : Placed p B) (fok : FnsOK p ck B fa fns) :
         have hinv0 := hinv.keep k0 ho
         have km0 : Keep p.w m m0 F := k0.mono (by omega)
         have convN : ∀ (envx : Env) (resx : Res), resx ≠ .norm → ∀ (e1 e2 : Nat) st',
-            Post p B ra Γ envx F D o e1 m resx st' → Post p B ra Γ envx F D o e2 m resx st' := by
+            Post p B ra lp Γ envx F D o e1 m resx st' → Post p B ra lp Γ envx F D o e2 m resx st' := by
           intro envx resx hx e1 e2 st' h
           cases resx with
           | norm => exact absurd rfl hx
@@ -678,9 +688,11 @@ theorem cS_ok (lib : Placed p B) (fok : FnsOK p ck B fa fns) :
           | ovf => simpa [Post] using h
           | defeat => simpa [Post] using h
           | retv v => simpa [Post] using h
+          | brk => simpa [Post] using h
+          | cnt => simpa [Post] using h
         -- the branch taken, its code address and the address where it ends
-        have hbranch : ∀ (X : S) (pcX nX : Nat), (cS (cxOf p ck B) fa Γ pcX o X).length = nX →
-            PlacedAt p pcX (cS (cxOf p ck B) fa Γ pcX o X) → pcX + nX ≤ B → wfS (Γ.map Prod.fst) X = true → pkS p.w o X ≤ D →
+        have hbranch : ∀ (X : S) (pcX nX : Nat), (cS (cxOf p ck B) fa lp Γ pcX o X).length = nX →
+            PlacedAt p pcX (cS (cxOf p ck B) fa lp Γ pcX o X) → pcX + nX ≤ B → wfS (Γ.map Prod.fst) X = true → pkS p.w o X ≤ D →
             (noTry (.ifb c t e k) = true → noTry X = true) → (youLevel (.ifb c t e k) = true → youLevel X = true) →
             Reach (sphinx p) ⟨pc, m⟩ [] ⟨pcX, m0⟩ →
             (∀ m1, Reach (sphinx p) ⟨pcX + nX, m1⟩ [] ⟨pc + nC + nT + 2 + nE, m1⟩) →
@@ -691,7 +703,7 @@ theorem cS_ok (lib : Placed p B) (fok : FnsOK p ck B fa fns) :
                     let (env2, tr2, r2) ← exec (256 ^ p.w) (8 * p.w) fns p.w f D o env1 k
                     pure (env2, tr1 ++ tr2, r2)
                   else pure (env1, tr1, r1)) = some (env', tr, res) →
-              Concl p B ra Γ env' F D o pc (pc + nC + nT + 2 + nE + (cS (cxOf p ck B) fa Γ (pc + nC + nT + 2 + nE) o k).length) m tr res := by
+              Concl p B ra lp Γ env' F D o pc (pc + nC + nT + 2 + nE + (cS (cxOf p ck B) fa lp Γ (pc + nC + nT + 2 + nE) o k).length) m tr res := by
           intro X pcX nX hlenX hplX hBX hwX hpkX hntX hylX rX gX env1 tr1 res1 hb1 hex
           simp only [Option.bind_eq_bind, Option.bind_some] at hex
           by_cases hn : res1 = .norm
@@ -704,12 +716,12 @@ theorem cS_ok (lib : Placed p B) (fok : FnsOK p ck B fa fns) :
               simp only [hk, Option.bind_some, Option.pure_def, Option.some.injEq, Prod.mk.injEq] at hex
               obtain ⟨rfl, rfl, rfl⟩ := hex
               have contK : ∀ m1, SInv p Γ env1 m1 F D o ra → Keep p.w m m1 F →
-                  Concl p B ra Γ envk F D o (pc + nC + nT + 2 + nE)
-                    (pc + nC + nT + 2 + nE + (cS (cxOf p ck B) fa Γ (pc + nC + nT + 2 + nE) o k).length) m1 trk resk :=
-                fun m1 hi1 km1 => ih F D ra hra k Γ env1 _ o m1 envk trk resk hplK (by omega) hi1 hd hwk (by omega) ho hk hck
+                  Concl p B ra lp Γ envk F D o (pc + nC + nT + 2 + nE)
+                    (pc + nC + nT + 2 + nE + (cS (cxOf p ck B) fa lp Γ (pc + nC + nT + 2 + nE) o k).length) m1 trk resk :=
+                fun m1 hi1 km1 => ih F D ra hra lp hlp k Γ env1 _ o m1 envk trk resk hplK (by omega) hi1 hd hwk (by omega) ho hk hck
                   (hs.sub (k := k) (by simp only [noTry, Bool.and_eq_true]; exact fun h => h.2)
                     (by simp only [youLevel, Bool.and_eq_true]; exact fun h => h.2) km1 (post_conv rfl))
-              have hsX : Safe p B ra Γ env1 F D o (pcX + nX) m0 .norm X := by
+              have hsX : Safe p B ra lp Γ env1 F D o (pcX + nX) m0 .norm X := by
                 rcases hs with h | ⟨h1, h2⟩
                 · left; exact hntX (by simpa [cS] using h)
                 · right
@@ -723,7 +735,7 @@ theorem cS_ok (lib : Placed p B) (fok : FnsOK p ck B fa fns) :
                   have km := km0.trans' km1
                   obtain ⟨st', r2, hp2⟩ := (contK m1 hi1 km).2 (exec_no_defeat _ _ _ _ _ _ _ _ _ _ _ _ h1.2 hk)
                   exact (((gX m1).trans r2).exec (h2 st' (hp2.rebase km))).2
-              have hxx := ih F D ra hra X Γ env pcX o m0 env1 tr1 .norm hplX (by rw [hlenX]; omega) hinv0 hd hwX hpkX ho hb1 trivial
+              have hxx := ih F D ra hra lp hlp X Γ env pcX o m0 env1 tr1 .norm hplX (by rw [hlenX]; omega) hinv0 hd hwX hpkX ho hb1 trivial
                 (by rw [hlenX]; exact hsX)
               rw [hlenX] at hxx
               obtain ⟨st1, r1, hp1⟩ := hxx.2 (by decide)
@@ -737,9 +749,9 @@ theorem cS_ok (lib : Placed p B) (fok : FnsOK p ck B fa fns) :
               exact Concl.pre r01 km (contK m1 hi1 km) (post_conv rfl)
           · simp only [hn, if_false, Option.pure_def, Option.some.injEq, Prod.mk.injEq] at hex
             obtain ⟨rfl, rfl, rfl⟩ := hex
-            have hsX : Safe p B ra Γ env1 F D o (pcX + nX) m0 res1 X :=
+            have hsX : Safe p B ra lp Γ env1 F D o (pcX + nX) m0 res1 X :=
               hs.sub (by intro h; exact hntX (by simpa [cS] using h)) (by intro h; exact hylX h) km0 (convN env1 res1 hn _ _)
-            have hxx := ih F D ra hra X Γ env pcX o m0 env1 tr1 res1 hplX (by rw [hlenX]; omega) hinv0 hd hwX hpkX ho hb1 hck
+            have hxx := ih F D ra hra lp hlp X Γ env pcX o m0 env1 tr1 res1 hplX (by rw [hlenX]; omega) hinv0 hd hwX hpkX ho hb1 hck
               (by rw [hlenX]; exact hsX)
             rw [hlenX] at hxx
             simpa using Concl.pre rX km0 hxx (convN env1 res1 hn _ _)
@@ -781,8 +793,8 @@ theorem cS_ok (lib : Placed p B) (fok : FnsOK p ck B fa fns) :
       have hlenA : (cB (cxOf p ck B) Γ pc o c [] (goto (pc + lenB ck c 0 2 false true + lenS ck body + lenS ck cont + 2))).length
           = lenB ck c 0 2 false true := by rw [cB_len]; simp
       generalize hnC : lenB ck c 0 2 false true = nC at *
-      have hlenT : (cS (cxOf p ck B) fa Γ (pc + nC) o body).length = lenS ck body := cS_len _ _ _ _ _ _
-      have hlenE : (cS (cxOf p ck B) fa Γ (pc + nC + lenS ck body) o cont).length = lenS ck cont := cS_len _ _ _ _ _ _
+      have hlenT : ∀ lp', (cS (cxOf p ck B) fa lp' Γ (pc + nC) o body).length = lenS ck body := fun _ => cS_len _ _ _ _ _ _ _
+      have hlenE : (cS (cxOf p ck B) fa lp Γ (pc + nC + lenS ck body) o cont).length = lenS ck cont := cS_len _ _ _ _ _ _ _
       generalize hnT : lenS ck body = nT at *
       generalize hnE : lenS ck cont = nE at *
       obtain ⟨hpl1234, hplK⟩ := hpl.append
@@ -791,8 +803,8 @@ theorem cS_ok (lib : Placed p B) (fok : FnsOK p ck B fa fns) :
       obtain ⟨hplA, hplT⟩ := hpl12.append
       simp only [List.length_append, hlenA, hlenT, hlenE, goto_len, ← Nat.add_assoc] at hB hplK hplE hplG hplT hs ⊢
       have hendM : pc + nC + nT + nE + 2 < 256 ^ p.w := by simp [stdlibLength] at hBM; omega
-      have etot : pc + (cS (cxOf p ck B) fa Γ pc o (.loop c body cont k)).length
-          = pc + nC + nT + nE + 2 + (cS (cxOf p ck B) fa Γ (pc + nC + nT + nE + 2) o k).length := by
+      have etot : pc + (cS (cxOf p ck B) fa lp Γ pc o (.loop c body cont k)).length
+          = pc + nC + nT + nE + 2 + (cS (cxOf p ck B) fa lp Γ (pc + nC + nT + nE + 2) o k).length := by
         simp only [cS, hnC, hnT, hnE, List.length_append, hlenA, hlenT, hlenE, goto_len]; omega
       rw [etot] at hs0
       have hc := cB_ok (ck := ck) lib Γ env F D c pc o none (some (pc + nC + nT + nE + 2)) m hplA (by rw [brCode, brCode, hlenA]; omega)
@@ -812,21 +824,23 @@ theorem cS_ok (lib : Placed p B) (fok : FnsOK p ck B fa fns) :
         | false =>
           simp only [exec, hev] at hex
           simp only [Bool.false_eq_true, if_false, Option.getD_some] at r0
-          have hkk := ih F D ra hra k Γ env (pc + nC + nT + nE + 2) o m0 env' tr res hplK (by omega) hinv0 hd hwk (by omega) ho hex hck
+          have hkk := ih F D ra hra lp hlp k Γ env (pc + nC + nT + nE + 2) o m0 env' tr res hplK (by omega) hinv0 hd hwk (by omega) ho hex hck
             (hs.sub (by simp only [noTry, Bool.and_eq_true]; exact fun h => h.2)
               (by simp only [youLevel, Bool.and_eq_true]; exact fun h => h.2) km0 (post_conv rfl))
           simpa using Concl.pre r0 km0 hkk (post_conv rfl)
         | true =>
           simp only [exec, hev] at hex
           simp only [if_true, Option.getD_none] at r0
+          have hlpB : ((pc + nC + nT, pc + nC + nT + nE + 2) : Nat × Nat).1 < 256 ^ p.w ∧
+              ((pc + nC + nT, pc + nC + nT + nE + 2) : Nat × Nat).2 < 256 ^ p.w := ⟨by show pc + nC + nT < _; omega, hendM⟩
           cases hb1 : exec (256 ^ p.w) (8 * p.w) fns p.w f D o env body with
           | none => simp [hb1] at hex
           | some rb =>
             obtain ⟨env1, tr1, res1⟩ := rb
             simp only [hb1, Option.bind_eq_bind, Option.bind_some] at hex
-            -- non-normal exits of a part are exits of the whole loop
+            -- non-normal exits of the `continue` part are exits of the whole loop
             have convN : ∀ (envx : Env) (resx : Res), resx ≠ .norm → ∀ (e1 e2 : Nat) st',
-                Post p B ra Γ envx F D o e1 m resx st' → Post p B ra Γ envx F D o e2 m resx st' := by
+                Post p B ra lp Γ envx F D o e1 m resx st' → Post p B ra lp Γ envx F D o e2 m resx st' := by
               intro envx resx hx e1 e2 st' h
               cases resx with
               | norm => exact absurd rfl hx
@@ -835,9 +849,30 @@ theorem cS_ok (lib : Placed p B) (fok : FnsOK p ck B fa fns) :
               | ovf => simpa [Post] using h
               | defeat => simpa [Post] using h
               | retv v => simpa [Post] using h
-            by_cases hn1 : res1 = .norm
-            · subst hn1
-              simp only [if_true] at hex
+              | brk => simpa [Post] using h
+              | cnt => simpa [Post] using h
+            -- exits of the body other than normal completion, `continue` and `break` are exits of the whole loop
+            have convB : ∀ (envx : Env) (resx : Res), resx ≠ .norm → resx ≠ .cnt → resx ≠ .brk → ∀ (e1 e2 : Nat) (mx : Mem) st',
+                Post p B ra (pc + nC + nT, pc + nC + nT + nE + 2) Γ envx F D o e1 mx resx st' → Post p B ra lp Γ envx F D o e2 mx resx st' := by
+              intro envx resx hx hx2 hx3 e1 e2 mx st' h
+              cases resx with
+              | norm => exact absurd rfl hx
+              | returned => simpa [Post] using h
+              | div0 => simpa [Post] using h
+              | ovf => simpa [Post] using h
+              | defeat => simpa [Post] using h
+              | retv v => simpa [Post] using h
+              | brk => exact absurd rfl hx3
+              | cnt => exact absurd rfl hx2
+            by_cases hn1 : res1 = .norm ∨ res1 = .cnt
+            · rw [if_pos hn1] at hex
+              have hfo1 : FaultOK ck fns p.w res1 := by rcases hn1 with h | h <;> rw [h] <;> trivial
+              have hnd1 : res1 ≠ .defeat := by rcases hn1 with h | h <;> rw [h] <;> decide
+              -- at the end of the body, or at a `continue`: the `continue` label
+              have postNC : ∀ (mx : Mem) st, Post p B ra (pc + nC + nT, pc + nC + nT + nE + 2) Γ env1 F D o (pc + nC + nT) mx res1 st →
+                  st.pc = pc + nC + nT ∧ SInv p Γ env1 st.mem F D o ra ∧ Keep p.w mx st.mem F := by
+                intro mx st h
+                rcases hn1 with h1 | h1 <;> subst h1 <;> simpa [Post] using h
               cases hb2 : exec (256 ^ p.w) (8 * p.w) fns p.w f D o env1 cont with
               | none => simp [hb2] at hex
               | some rc =>
@@ -854,12 +889,12 @@ theorem cS_ok (lib : Placed p B) (fok : FnsOK p ck B fa fns) :
                     obtain ⟨rfl, rfl, rfl⟩ := hex
                     -- the next round, from any state matching env2 that is reachable from m
                     have L : ∀ m2, SInv p Γ env2 m2 F D o ra → Keep p.w m m2 F →
-                        Concl p B ra Γ env3 F D o pc (pc + nC + nT + nE + 2 + (cS (cxOf p ck B) fa Γ (pc + nC + nT + nE + 2) o k).length) m2 tr3 res3 := by
+                        Concl p B ra lp Γ env3 F D o pc (pc + nC + nT + nE + 2 + (cS (cxOf p ck B) fa lp Γ (pc + nC + nT + nE + 2) o k).length) m2 tr3 res3 := by
                       intro m2 hi2 km2
-                      have := ih F D ra hra (.loop c body cont k) Γ env2 pc o m2 env3 tr3 res3 hpl0 hB0 hi2 hd hwf0 hpk0 ho hb3 hck
+                      have := ih F D ra hra lp hlp (.loop c body cont k) Γ env2 pc o m2 env3 tr3 res3 hpl0 hB0 hi2 hd hwf0 hpk0 ho hb3 hck
                         (by rw [etot]; exact hs0.sub (fun h => h) (fun h => h) km2 (post_conv rfl))
                       rw [etot] at this; exact this
-                    have hsc : ∀ m1, Keep p.w m m1 F → Safe p B ra Γ env2 F D o (pc + nC + nT + nE) m1 .norm cont := by
+                    have hsc : ∀ m1, Keep p.w m m1 F → Safe p B ra lp Γ env2 F D o (pc + nC + nT + nE) m1 .norm cont := by
                       intro m1 km1
                       rcases hs0 with h | ⟨h1, h2⟩
                       · left; simp only [noTry, Bool.and_eq_true] at h; exact h.1.2
@@ -875,7 +910,7 @@ theorem cS_ok (lib : Placed p B) (fok : FnsOK p ck B fa fns) :
                         have g := goto_reach lib (pc + nC + nT + nE) pc m2 hplG (by omega)
                         obtain ⟨st', r3, hp3⟩ := (L m2 hi2 km2).2 (exec_no_defeat _ _ _ _ _ _ _ _ _ _ _ _ h1' hb3)
                         exact ((g.trans r3).exec (h2 st' (hp3.rebase km2))).2
-                    have hsbd : Safe p B ra Γ env1 F D o (pc + nC + nT) m0 .norm body := by
+                    have hsbd : Safe p B ra (pc + nC + nT, pc + nC + nT + nE + 2) Γ env1 F D o (pc + nC + nT) m0 res1 body := by
                       rcases hs0 with h | ⟨h1, h2⟩
                       · left; simp only [noTry, Bool.and_eq_true] at h; exact h.1.1
                       · right
@@ -883,11 +918,11 @@ theorem cS_ok (lib : Placed p B) (fok : FnsOK p ck B fa fns) :
                         simp only [youLevel, Bool.and_eq_true] at h1
                         refine ⟨h1.1.1, fun st1 hp1 => ?_⟩
                         obtain ⟨pc1, m1⟩ := st1
-                        simp only [Post] at hp1
-                        obtain ⟨hpc1, hi1, k01⟩ := hp1
+                        obtain ⟨hpc1, hi1, k01⟩ := postNC m0 _ hp1
+                        dsimp only at hpc1 hi1 k01
                         subst hpc1
                         have km1 := km0.trans' k01
-                        have hcc := ih F D ra hra cont Γ env1 (pc + nC + nT) o m1 env2 tr2 .norm hplE (by rw [hlenE]; omega) hi1 hd hwc (by omega) ho hb2 trivial
+                        have hcc := ih F D ra hra lp hlp cont Γ env1 (pc + nC + nT) o m1 env2 tr2 .norm hplE (by rw [hlenE]; omega) hi1 hd hwc (by omega) ho hb2 trivial
                           (by rw [hlenE]; exact hsc m1 km1)
                         rw [hlenE] at hcc
                         obtain ⟨st2, r2, hp2⟩ := hcc.2 (by decide)
@@ -899,16 +934,16 @@ theorem cS_ok (lib : Placed p B) (fok : FnsOK p ck B fa fns) :
                         have g := goto_reach lib (pc + nC + nT + nE) pc m2 hplG (by omega)
                         obtain ⟨st', r3, hp3⟩ := (L m2 hi2 km2).2 (exec_no_defeat _ _ _ _ _ _ _ _ _ _ _ _ h1' hb3)
                         exact ((r2.trans (g.trans r3)).exec (h2 st' (hp3.rebase km2))).2
-                    have hbb := ih F D ra hra body Γ env (pc + nC) o m0 env1 tr1 .norm hplT (by rw [hlenT]; omega) hinv0 hd hwb (by omega) ho hb1 trivial
+                    have hbb := ih F D ra hra (pc + nC + nT, pc + nC + nT + nE + 2) hlpB body Γ env (pc + nC) o m0 env1 tr1 res1 hplT (by rw [hlenT]; omega) hinv0 hd hwb (by omega) ho hb1 hfo1
                       (by rw [hlenT]; exact hsbd)
                     rw [hlenT] at hbb
-                    obtain ⟨st1, r1, hp1⟩ := hbb.2 (by decide)
+                    obtain ⟨st1, r1, hp1⟩ := hbb.2 hnd1
                     obtain ⟨pc1, m1⟩ := st1
-                    simp only [Post] at hp1
-                    obtain ⟨hpc1, hi1, k01⟩ := hp1
+                    obtain ⟨hpc1, hi1, k01⟩ := postNC m0 _ hp1
+                    dsimp only at hpc1 hi1 k01
                     subst hpc1
                     have km1 := km0.trans' k01
-                    have hcc := ih F D ra hra cont Γ env1 (pc + nC + nT) o m1 env2 tr2 .norm hplE (by rw [hlenE]; omega) hi1 hd hwc (by omega) ho hb2 trivial
+                    have hcc := ih F D ra hra lp hlp cont Γ env1 (pc + nC + nT) o m1 env2 tr2 .norm hplE (by rw [hlenE]; omega) hi1 hd hwc (by omega) ho hb2 trivial
                       (by rw [hlenE]; exact hsc m1 km1)
                     rw [hlenE] at hcc
                     obtain ⟨st2, r2, hp2⟩ := hcc.2 (by decide)
@@ -923,13 +958,61 @@ theorem cS_ok (lib : Placed p B) (fok : FnsOK p ck B fa fns) :
                     exact Concl.pre r02 km2 (L m2 hi2 km2) (post_conv rfl)
                 · simp only [hn2, if_false, Option.pure_def, Option.some.injEq, Prod.mk.injEq] at hex
                   obtain ⟨rfl, rfl, rfl⟩ := hex
-                  have hsc : ∀ m1, Keep p.w m m1 F → Safe p B ra Γ env2 F D o (pc + nC + nT + nE) m1 res2 cont := fun m1 km1 =>
+                  have hsc : ∀ m1, Keep p.w m m1 F → Safe p B ra lp Γ env2 F D o (pc + nC + nT + nE) m1 res2 cont := fun m1 km1 =>
                     hs.sub (by simp only [noTry, Bool.and_eq_true]; exact fun h => h.1.2)
                       (by simp only [youLevel, Bool.and_eq_true]; exact fun h => h.1.2) km1 (convN env2 res2 hn2 _ _)
-                  have hsbd : Safe p B ra Γ env1 F D o (pc + nC + nT) m0 .norm body := by
+                  have hsbd : Safe p B ra (pc + nC + nT, pc + nC + nT + nE + 2) Γ env1 F D o (pc + nC + nT) m0 res1 body := by
                     rcases hs with h | ⟨h1, h2⟩
                     · left; simp only [noTry, Bool.and_eq_true] at h; exact h.1.1
                     · right
+                      simp only [youLevel, Bool.and_eq_true] at h1
+                      refine ⟨h1.1.1, fun st1 hp1 => ?_⟩
+                      obtain ⟨pc1, m1⟩ := st1
+                      obtain ⟨hpc1, hi1, k01⟩ := postNC m0 _ hp1
+                      dsimp only at hpc1 hi1 k01
+                      subst hpc1
+                      have km1 := km0.trans' k01
+                      have hcc := ih F D ra hra lp hlp cont Γ env1 (pc + nC + nT) o m1 env2 tr2 res2 hplE (by rw [hlenE]; omega) hi1 hd hwc (by omega) ho hb2 hck
+                        (by rw [hlenE]; exact hsc m1 km1)
+                      rw [hlenE] at hcc
+                      obtain ⟨st2, r2, hp2⟩ := hcc.2 (exec_no_defeat _ _ _ _ _ _ _ _ _ _ _ _ h1.1.2 hb2)
+                      exact (r2.exec (h2 st2 (convN env2 res2 hn2 _ _ st2 (hp2.rebase km1)))).2
+                  have hbb := ih F D ra hra (pc + nC + nT, pc + nC + nT + nE + 2) hlpB body Γ env (pc + nC) o m0 env1 tr1 res1 hplT (by rw [hlenT]; omega) hinv0 hd hwb (by omega) ho hb1 hfo1
+                    (by rw [hlenT]; exact hsbd)
+                  rw [hlenT] at hbb
+                  obtain ⟨st1, r1, hp1⟩ := hbb.2 hnd1
+                  obtain ⟨pc1, m1⟩ := st1
+                  obtain ⟨hpc1, hi1, k01⟩ := postNC m0 _ hp1
+                  dsimp only at hpc1 hi1 k01
+                  subst hpc1
+                  have km1 := km0.trans' k01
+                  have hcc := ih F D ra hra lp hlp cont Γ env1 (pc + nC + nT) o m1 env2 tr2 res2 hplE (by rw [hlenE]; omega) hi1 hd hwc (by omega) ho hb2 hck
+                    (by rw [hlenE]; exact hsc m1 km1)
+                  rw [hlenE] at hcc
+                  have r01 : Reach (sphinx p) ⟨pc, m⟩ tr1 ⟨pc + nC + nT, m1⟩ := by simpa using r0.trans r1
+                  exact Concl.pre r01 km1 hcc (convN env2 res2 hn2 _ _)
+            · rw [if_neg hn1] at hex
+              by_cases hbk : res1 = .brk
+              · -- `break`: the rest of the list, from the `break` label
+                subst hbk
+                simp only [if_true] at hex
+                cases hk : exec (256 ^ p.w) (8 * p.w) fns p.w f D o env1 k with
+                | none => simp [hk] at hex
+                | some rk =>
+                  obtain ⟨env3, tr3, res3⟩ := rk
+                  simp only [hk, Option.bind_some, Option.pure_def, Option.some.injEq, Prod.mk.injEq] at hex
+                  obtain ⟨rfl, rfl, rfl⟩ := hex
+                  have contK : ∀ m1, SInv p Γ env1 m1 F D o ra → Keep p.w m m1 F →
+                      Concl p B ra lp Γ env3 F D o (pc + nC + nT + nE + 2)
+                        (pc + nC + nT + nE + 2 + (cS (cxOf p ck B) fa lp Γ (pc + nC + nT + nE + 2) o k).length) m1 tr3 res3 :=
+                    fun m1 hi1 km1 => ih F D ra hra lp hlp k Γ env1 (pc + nC + nT + nE + 2) o m1 env3 tr3 res3 hplK (by omega) hi1 hd hwk (by omega) ho hk hck
+                      (hs.sub (by simp only [noTry, Bool.and_eq_true]; exact fun h => h.2)
+                        (by simp only [youLevel, Bool.and_eq_true]; exact fun h => h.2) km1 (post_conv rfl))
+                  have hsbd : Safe p B ra (pc + nC + nT, pc + nC + nT + nE + 2) Γ env1 F D o (pc + nC + nT) m0 .brk body := by
+                    rcases hs with h | ⟨h1, h2⟩
+                    · left; simp only [noTry, Bool.and_eq_true] at h; exact h.1.1
+                    · right
+                      have h1' := h1
                       simp only [youLevel, Bool.and_eq_true] at h1
                       refine ⟨h1.1.1, fun st1 hp1 => ?_⟩
                       obtain ⟨pc1, m1⟩ := st1
@@ -937,34 +1020,35 @@ theorem cS_ok (lib : Placed p B) (fok : FnsOK p ck B fa fns) :
                       obtain ⟨hpc1, hi1, k01⟩ := hp1
                       subst hpc1
                       have km1 := km0.trans' k01
-                      have hcc := ih F D ra hra cont Γ env1 (pc + nC + nT) o m1 env2 tr2 res2 hplE (by rw [hlenE]; omega) hi1 hd hwc (by omega) ho hb2 hck
-                        (by rw [hlenE]; exact hsc m1 km1)
-                      rw [hlenE] at hcc
-                      obtain ⟨st2, r2, hp2⟩ := hcc.2 (exec_no_defeat _ _ _ _ _ _ _ _ _ _ _ _ h1.1.2 hb2)
-                      exact (r2.exec (h2 st2 (convN env2 res2 hn2 _ _ st2 (hp2.rebase km1)))).2
-                  have hbb := ih F D ra hra body Γ env (pc + nC) o m0 env1 tr1 .norm hplT (by rw [hlenT]; omega) hinv0 hd hwb (by omega) ho hb1 trivial
+                      obtain ⟨st', r2, hp2⟩ := (contK m1 hi1 km1).2 (exec_no_defeat _ _ _ _ _ _ _ _ _ _ _ _ h1.2 hk)
+                      exact (r2.exec (h2 st' (hp2.rebase km1))).2
+                  have hbb := ih F D ra hra (pc + nC + nT, pc + nC + nT + nE + 2) hlpB body Γ env (pc + nC) o m0 env1 tr1 .brk hplT (by rw [hlenT]; omega) hinv0 hd hwb (by omega) ho hb1 trivial
                     (by rw [hlenT]; exact hsbd)
-                  rw [hlenT] at hbb
                   obtain ⟨st1, r1, hp1⟩ := hbb.2 (by decide)
                   obtain ⟨pc1, m1⟩ := st1
                   simp only [Post] at hp1
                   obtain ⟨hpc1, hi1, k01⟩ := hp1
                   subst hpc1
                   have km1 := km0.trans' k01
-                  have hcc := ih F D ra hra cont Γ env1 (pc + nC + nT) o m1 env2 tr2 res2 hplE (by rw [hlenE]; omega) hi1 hd hwc (by omega) ho hb2 hck
-                    (by rw [hlenE]; exact hsc m1 km1)
-                  rw [hlenE] at hcc
-                  have r01 : Reach (sphinx p) ⟨pc, m⟩ tr1 ⟨pc + nC + nT, m1⟩ := by simpa using r0.trans r1
-                  exact Concl.pre r01 km1 hcc (convN env2 res2 hn2 _ _)
-            · simp only [hn1, if_false, Option.pure_def, Option.some.injEq, Prod.mk.injEq] at hex
-              obtain ⟨rfl, rfl, rfl⟩ := hex
-              have hsb1 : Safe p B ra Γ env1 F D o (pc + nC + nT) m0 res1 body :=
-                hs.sub (by simp only [noTry, Bool.and_eq_true]; exact fun h => h.1.1)
-                  (by simp only [youLevel, Bool.and_eq_true]; exact fun h => h.1.1) km0 (convN env1 res1 hn1 _ _)
-              have hbb := ih F D ra hra body Γ env (pc + nC) o m0 env1 tr1 res1 hplT (by rw [hlenT]; omega) hinv0 hd hwb (by omega) ho hb1 hck
-                (by rw [hlenT]; exact hsb1)
-              rw [hlenT] at hbb
-              simpa using Concl.pre r0 km0 hbb (convN env1 res1 hn1 _ _)
+                  have r01 : Reach (sphinx p) ⟨pc, m⟩ tr1 ⟨pc + nC + nT + nE + 2, m1⟩ := by simpa using r0.trans r1
+                  exact Concl.pre r01 km1 (contK m1 hi1 km1) (post_conv rfl)
+              · rw [if_neg hbk] at hex
+                simp only [Option.pure_def, Option.some.injEq, Prod.mk.injEq] at hex
+                obtain ⟨rfl, rfl, rfl⟩ := hex
+                have hnn : res1 ≠ .norm := fun h => hn1 (Or.inl h)
+                have hnc : res1 ≠ .cnt := fun h => hn1 (Or.inr h)
+                have hsb1 : Safe p B ra (pc + nC + nT, pc + nC + nT + nE + 2) Γ env1 F D o (pc + nC + nT) m0 res1 body := by
+                  rcases hs with h | ⟨h1, h2⟩
+                  · left; simp only [noTry, Bool.and_eq_true] at h; exact h.1.1
+                  · right
+                    simp only [youLevel, Bool.and_eq_true] at h1
+                    exact ⟨h1.1.1, fun st1 hp1 => h2 st1 (convB env1 res1 hnn hnc hbk _ _ m st1 (hp1.rebase km0))⟩
+                have hbb := ih F D ra hra (pc + nC + nT, pc + nC + nT + nE + 2) hlpB body Γ env (pc + nC) o m0 env1 tr1 res1 hplT (by rw [hlenT]; omega) hinv0 hd hwb (by omega) ho hb1 hck
+                  (by rw [hlenT]; exact hsb1)
+                rw [hlenT] at hbb
+                refine ⟨fun hd' => r0.1 (hbb.1 hd'), fun hn' => ?_⟩
+                obtain ⟨st', r2, hp⟩ := hbb.2 hn'
+                exact ⟨st', by simpa using r0.trans r2, convB env1 res1 hnn hnc hbk _ _ m st' (hp.rebase km0)⟩
     | tryUndo body handler k =>
       rcases hs with h | ⟨h1, h2⟩
       · simp [noTry] at h
@@ -974,8 +1058,8 @@ theorem cS_ok (lib : Placed p B) (fok : FnsOK p ck B fa fns) :
         obtain ⟨⟨hwb, hwh⟩, hwk⟩ := hwf
         simp only [pkS] at hpk
         simp only [cS] at hpl hB h2 ⊢
-        have hlenB : (cS (cxOf p ck B) fa Γ (pc + 1) o body).length = lenS ck body := cS_len _ _ _ _ _ _
-        have hlenH : (cS (cxOf p ck B) fa Γ (pc + 1 + lenS ck body + 2) o handler).length = lenS ck handler := cS_len _ _ _ _ _ _
+        have hlenB : (cS (cxOf p ck B) fa lp Γ (pc + 1) o body).length = lenS ck body := cS_len _ _ _ _ _ _ _
+        have hlenH : (cS (cxOf p ck B) fa lp Γ (pc + 1 + lenS ck body + 2) o handler).length = lenS ck handler := cS_len _ _ _ _ _ _ _
         generalize hnB : lenS ck body = nB at *
         generalize hnH : lenS ck handler = nH at *
         obtain ⟨hpl1234, hplK⟩ := hpl.append
@@ -988,7 +1072,7 @@ theorem cS_ok (lib : Placed p B) (fok : FnsOK p ck B fa fns) :
         have s0 := step_j (m := m) (placed_one hplJ) (ev_imm (pc + 1 + nB + 2))
         rw [show (pc + 1 + nB + 2) % p.M = pc + 1 + nB + 2 from Nat.mod_eq_of_lt (by unfold Prog.M; omega)] at s0
         have convN : ∀ (envx : Env) (resx : Res), resx ≠ .norm → ∀ (e1 e2 : Nat) st',
-            Post p B ra Γ envx F D o e1 m resx st' → Post p B ra Γ envx F D o e2 m resx st' := by
+            Post p B ra lp Γ envx F D o e1 m resx st' → Post p B ra lp Γ envx F D o e2 m resx st' := by
           intro envx resx hx e1 e2 st' h
           cases resx with
           | norm => exact absurd rfl hx
@@ -997,16 +1081,18 @@ theorem cS_ok (lib : Placed p B) (fok : FnsOK p ck B fa fns) :
           | ovf => simpa [Post] using h
           | defeat => simpa [Post] using h
           | retv v => simpa [Post] using h
+          | brk => simpa [Post] using h
+          | cnt => simpa [Post] using h
         -- the rest of the list, from any state at `end_try` reachable from `m`
         have contK : ∀ (env1 : Env) (m1 : Mem) (env3 : Env) (tr3 : List Ev) (res3 : Res),
             SInv p Γ env1 m1 F D o ra → Keep p.w m m1 F →
             exec (256 ^ p.w) (8 * p.w) fns p.w f D o env1 k = some (env3, tr3, res3) → FaultOK ck fns p.w res3 →
-            (∀ st', Post p B ra Γ env3 F D o (pc + 1 + nB + 2 + nH + (cS (cxOf p ck B) fa Γ (pc + 1 + nB + 2 + nH) o k).length) m res3 st' →
+            (∀ st', Post p B ra lp Γ env3 F D o (pc + 1 + nB + 2 + nH + (cS (cxOf p ck B) fa lp Γ (pc + 1 + nB + 2 + nH) o k).length) m res3 st' →
               ¬ Halts (sphinx p) st') →
-            Concl p B ra Γ env3 F D o (pc + 1 + nB + 2 + nH)
-              (pc + 1 + nB + 2 + nH + (cS (cxOf p ck B) fa Γ (pc + 1 + nB + 2 + nH) o k).length) m1 tr3 res3 :=
+            Concl p B ra lp Γ env3 F D o (pc + 1 + nB + 2 + nH)
+              (pc + 1 + nB + 2 + nH + (cS (cxOf p ck B) fa lp Γ (pc + 1 + nB + 2 + nH) o k).length) m1 tr3 res3 :=
           fun env1 m1 env3 tr3 res3 hi1 km1 hk hck3 hfin =>
-            ih F D ra hra k Γ env1 (pc + 1 + nB + 2 + nH) o m1 env3 tr3 res3 hplK (by omega) hi1 hd hwk (by omega) ho hk hck3
+            ih F D ra hra lp hlp k Γ env1 (pc + 1 + nB + 2 + nH) o m1 env3 tr3 res3 hplK (by omega) hi1 hd hwk (by omega) ho hk hck3
               (Or.inr ⟨hyk, fun st' hp => hfin st' (hp.rebase km1)⟩)
         simp only [exec] at hex
         cases hb1 : exec (256 ^ p.w) (8 * p.w) fns p.w f D o env body with
@@ -1018,7 +1104,7 @@ theorem cS_ok (lib : Placed p B) (fok : FnsOK p ck B fa fns) :
           · -- the body would be defeated: the Turing jump goes to the handler, in the state before the try
             subst hdft
             simp only [if_true] at hex
-            have hbb := ih F D ra hra body Γ env (pc + 1) o m env1 tr1 .defeat hplB (by rw [hlenB]; omega) hinv hd hwb (by omega) ho hb1
+            have hbb := ih F D ra hra lp hlp body Γ env (pc + 1) o m env1 tr1 .defeat hplB (by rw [hlenB]; omega) hinv hd hwb (by omega) ho hb1
               trivial (Or.inl hntb)
             have jt : Reach (sphinx p) ⟨pc, m⟩ [] ⟨pc + 1 + nB + 2, m⟩ := Reach.jump_taken' (sys := sphinx p) s0 (hbb.1 rfl)
             cases hh2 : exec (256 ^ p.w) (8 * p.w) fns p.w f D o env handler with
@@ -1036,7 +1122,7 @@ theorem cS_ok (lib : Placed p B) (fok : FnsOK p ck B fa fns) :
                   obtain ⟨env3, tr3, res3⟩ := rk
                   simp only [hk, Option.bind_some, Option.pure_def, Option.some.injEq, Prod.mk.injEq] at hex
                   obtain ⟨rfl, rfl, rfl⟩ := hex
-                  have hhh := ih F D ra hra handler Γ env (pc + 1 + nB + 2) o m env2 tr2 .norm hplH (by rw [hlenH]; omega) hinv hd hwh (by omega) ho hh2
+                  have hhh := ih F D ra hra lp hlp handler Γ env (pc + 1 + nB + 2) o m env2 tr2 .norm hplH (by rw [hlenH]; omega) hinv hd hwh (by omega) ho hh2
                     trivial (Or.inl (plain_noTry _ hplh))
                   rw [hlenH] at hhh
                   obtain ⟨st2, r2, hp2⟩ := hhh.2 (by decide)
@@ -1048,11 +1134,11 @@ theorem cS_ok (lib : Placed p B) (fok : FnsOK p ck B fa fns) :
                   exact Concl.pre r02 km2 (contK env2 m2 env3 tr3 res3 hi2 km2 hk hck h2) (post_conv rfl)
               · simp only [hn2, if_false, Option.pure_def, Option.some.injEq, Prod.mk.injEq] at hex
                 obtain ⟨rfl, rfl, rfl⟩ := hex
-                have hhh := ih F D ra hra handler Γ env (pc + 1 + nB + 2) o m env2 tr2 res2 hplH (by rw [hlenH]; omega) hinv hd hwh (by omega) ho hh2
+                have hhh := ih F D ra hra lp hlp handler Γ env (pc + 1 + nB + 2) o m env2 tr2 res2 hplH (by rw [hlenH]; omega) hinv hd hwh (by omega) ho hh2
                   hck (Or.inl (plain_noTry _ hplh))
                 simpa using Concl.pre jt (Keep.refl _ _ _) hhh (convN env2 res2 hn2 _ _)
           · simp only [hdft, if_false] at hex
-            have hbb := ih F D ra hra body Γ env (pc + 1) o m env1 tr1 res1 hplB (by rw [hlenB]; omega) hinv hd hwb (by omega) ho hb1
+            have hbb := ih F D ra hra lp hlp body Γ env (pc + 1) o m env1 tr1 res1 hplB (by rw [hlenB]; omega) hinv hd hwb (by omega) ho hb1
             by_cases hn : res1 = .norm
             · subst hn
               simp only [if_true] at hex
@@ -1081,7 +1167,7 @@ theorem cS_ok (lib : Placed p B) (fok : FnsOK p ck B fa fns) :
               obtain ⟨rfl, rfl, rfl⟩ := hex
               have hbb' := hbb hck (Or.inl hntb)
               obtain ⟨st1, r1, hp1⟩ := hbb'.2 hdft
-              have hp1' := convN env1 res1 hn _ (pc + 1 + nB + 2 + nH + (cS (cxOf p ck B) fa Γ (pc + 1 + nB + 2 + nH) o k).length) st1 hp1
+              have hp1' := convN env1 res1 hn _ (pc + 1 + nB + 2 + nH + (cS (cxOf p ck B) fa lp Γ (pc + 1 + nB + 2 + nH) o k).length) st1 hp1
               have nh1 : ¬ Halts (sphinx p) ⟨pc + 1, m⟩ := (r1.exec (h2 st1 hp1')).2
               have jn := Reach.jump_not_taken (sys := sphinx p) s0 (fun hh => absurd hh nh1)
               exact ⟨fun hd' => absurd hd' hdft, fun _ => ⟨st1, by simpa using jn.trans r1, hp1'⟩⟩
@@ -1094,7 +1180,7 @@ theorem cS_ok (lib : Placed p B) (fok : FnsOK p ck B fa fns) :
       rw [show (cxOf p ck B).r0 = 2 * p.w from rfl] at hgv
       rw [hgv] at hg hreg
       simp only at hg hreg
-      have hcode : cS (cxOf p ck B) fa Γ pc o (.retE e)
+      have hcode : cS (cxOf p ck B) fa lp Γ pc o (.retE e)
           = c ++ [ldSlot (cxOf p ck B) (3 * p.w) p.w, stSlot (cxOf p ck B) p.w (v'.arg (cxOf p ck B)),
               .j (.st (3 * p.w)), .halt] := by
         simp only [cS]; rw [show (cxOf p ck B).r0 = 2 * p.w from rfl, hgv]; rfl
@@ -1184,7 +1270,7 @@ theorem cS_ok (lib : Placed p B) (fok : FnsOK p ck B fa fns) :
             obtain ⟨rfl, rfl, rfl⟩ := hex
             obtain ⟨m1, r1, k1, _⟩ := (hcall g args trc none rv hpl1 (by omega) hba (by omega) hcw
               (fun r h => by cases h)).2.2 rfl
-            have hkk := ih F D ra hra k Γ env _ o m1 envk trk resk hpl2 (by omega)
+            have hkk := ih F D ra hra lp hlp k Γ env _ o m1 envk trk resk hpl2 (by omega)
               (hinv.keep k1 ho) hd hwk (by omega) ho hk hck
               (hs.sub (by simp [noTry]) (by simp [youLevel]) (k1.mono (by omega)) (post_conv (by omega)))
             exact Concl.pre r1 (k1.mono (by omega)) hkk (post_conv (by omega))
@@ -1222,8 +1308,8 @@ theorem cS_ok (lib : Placed p B) (fok : FnsOK p ck B fa fns) :
               obtain ⟨m1, r1, k1, hv1⟩ := (hcall g args trc none (some v) hpl1 (by omega) hba (by omega) hcw
                 (fun r h => by cases h)).2.2 rfl
               obtain ⟨hinv1, hd1⟩ := decl_inv hinv hd x v k1 (hv1 v rfl) hxn ho
-              have conv : ∀ (e1 e2 : Nat), e1 = e2 → ∀ st', Post p B ra ((x, o + p.w) :: Γ) envk F D (o + p.w) e1 m resk st' →
-                  Post p B ra Γ envk F D o e2 m resk st' := by
+              have conv : ∀ (e1 e2 : Nat), e1 = e2 → ∀ st', Post p B ra lp ((x, o + p.w) :: Γ) envk F D (o + p.w) e1 m resk st' →
+                  Post p B ra lp Γ envk F D o e2 m resk st' := by
                 intro e1 e2 he st' hpost
                 subst he
                 cases resk with
@@ -1235,7 +1321,13 @@ theorem cS_ok (lib : Placed p B) (fok : FnsOK p ck B fa fns) :
                 | ovf => simpa [Post] using hpost
                 | defeat => simpa [Post] using hpost
                 | retv v => simpa [Post] using hpost
-              have hkk := ih F D ra hra k ((x, o + p.w) :: Γ) (upd env x v) _ (o + p.w) m1 envk trk resk hpl2 (by omega)
+                | brk =>
+                  simp only [Post] at hpost ⊢
+                  exact ⟨hpost.1, decl_back hinv x hpost.2.1 hxn, hpost.2.2⟩
+                | cnt =>
+                  simp only [Post] at hpost ⊢
+                  exact ⟨hpost.1, decl_back hinv x hpost.2.1 hxn, hpost.2.2⟩
+              have hkk := ih F D ra hra lp hlp k ((x, o + p.w) :: Γ) (upd env x v) _ (o + p.w) m1 envk trk resk hpl2 (by omega)
                 hinv1 hd1 (by simpa using hwk) (by omega) (by omega) hk hck
                 (hs.sub (by simp [noTry]) (by simp [youLevel]) (k1.mono (by omega)) (conv _ _ (by omega)))
               exact Concl.pre r1 (k1.mono (by omega)) hkk (conv _ _ (by omega))
@@ -1243,10 +1335,10 @@ theorem cS_ok (lib : Placed p B) (fok : FnsOK p ck B fa fns) :
       simp only [wfS, Bool.and_eq_true] at hwf
       obtain ⟨⟨hxin, hba⟩, hwk⟩ := hwf
       simp only [pkS] at hpk
-      have hcode : cS (cxOf p ck B) fa Γ pc o (.assignCall x g args k)
+      have hcode : cS (cxOf p ck B) fa lp Γ pc o (.assignCall x g args k)
           = ((cCall (cxOf p ck B) fa Γ pc o g args ++
               [ldSlot (cxOf p ck B) (3 * p.w) (o + p.w), stSlot (cxOf p ck B) (look Γ x) (.st (3 * p.w))])) ++
-            cS (cxOf p ck B) fa Γ (pc + (cCall (cxOf p ck B) fa Γ pc o g args ++
+            cS (cxOf p ck B) fa lp Γ (pc + (cCall (cxOf p ck B) fa Γ pc o g args ++
               [ldSlot (cxOf p ck B) (3 * p.w) (o + p.w), stSlot (cxOf p ck B) (look Γ x) (.st (3 * p.w))]).length) o k := by
         simp only [cS]; rfl
       rw [hcode] at hpl hB hs ⊢
@@ -1300,13 +1392,25 @@ theorem cS_ok (lib : Placed p B) (fok : FnsOK p ck B fa fns) :
               have hinv3 := assign_inv hw hinv2 hd x v hvM hxin hoD
               have km3 : Keep p.w m (m2.writeLE (F - look Γ x) p.w v) F :=
                 ((k1.mono (by omega)).trans' (k12.mono (by omega))).trans' (Keep.write _ _ _ _ _ _ (by omega) (by omega))
-              have hkk := ih F D ra hra k Γ (upd env x v) _ o _ envk trk resk hpl3 (by omega)
+              have hkk := ih F D ra hra lp hlp k Γ (upd env x v) _ o _ envk trk resk hpl3 (by omega)
                 hinv3 hd hwk (by omega) ho hk hck (hs.sub (by simp [noTry]) (by simp [youLevel]) km3 (post_conv (by omega)))
               have r01 : Reach (sphinx p) ⟨pc, m⟩ trc
                   ⟨pc + ((cCall (cxOf p ck B) fa Γ pc o g args).length + 2), m2.writeLE (F - look Γ x) p.w v⟩ := by
                 have := r1.trans ((Reach.of_next (sys := sphinx p) s0).trans (Reach.of_next (sys := sphinx p) s1))
                 simpa [evl, Nat.add_assoc] using this
               exact Concl.pre r01 km3 hkk (post_conv (by omega))
+    | brk =>
+      simp only [exec, Option.some.injEq, Prod.mk.injEq] at hex
+      obtain ⟨rfl, rfl, rfl⟩ := hex
+      simp only [cS] at hpl hB ⊢
+      have g := goto_reach lib pc lp.2 m hpl hlp.2
+      exact ⟨fun h => absurd h (by decide), fun _ => ⟨⟨lp.2, m⟩, g, by simp only [Post]; exact ⟨trivial, hinv, Keep.refl _ _ _⟩⟩⟩
+    | cnt =>
+      simp only [exec, Option.some.injEq, Prod.mk.injEq] at hex
+      obtain ⟨rfl, rfl, rfl⟩ := hex
+      simp only [cS] at hpl hB ⊢
+      have g := goto_reach lib pc lp.1 m hpl hlp.1
+      exact ⟨fun h => absurd h (by decide), fun _ => ⟨⟨lp.1, m⟩, g, by simp only [Post]; exact ⟨trivial, hinv, Keep.refl _ _ _⟩⟩⟩
 end
 
 end HidVerif.Core
